@@ -247,8 +247,9 @@ class ExactSolver(object, metaclass=_AddParametersToDocstring):
     def __call__(self, r, t):
 
         # positions as floating-point numbers: several solvers allocate their
-        # output like the input, so integer positions truncated the fields
-        return self._run(numpy.asarray(r, dtype=float), t)
+        # output like the input, so integer positions truncated the fields;
+        # the time likewise (a numpy integer to a negative power raises)
+        return self._run(numpy.asarray(r, dtype=float), float(t))
 
 
 class ExactSolution(numpy.recarray):
